@@ -48,15 +48,21 @@ class Hang(Exception):
 @contextlib.contextmanager
 def watchdog(seconds=20):
     """Every call into the real code runs under an alarm: non-termination is an observation."""
+    # the limit is on the CPU time of the process (a non-terminating edit spins), so that a loaded machine does not turn a
+    # slow call into a "hang"; a wall-clock alarm ten times as long is the backstop for a call that blocks without spinning
     def handler(signum, frame):
         raise Hang()
-    old = signal.signal(signal.SIGALRM, handler)
-    signal.alarm(int(seconds))
+    old_p = signal.signal(signal.SIGPROF, handler)
+    old_a = signal.signal(signal.SIGALRM, handler)
+    signal.setitimer(signal.ITIMER_PROF, float(seconds))
+    signal.alarm(int(seconds) * 10)
     try:
         yield
     finally:
+        signal.setitimer(signal.ITIMER_PROF, 0)
         signal.alarm(0)
-        signal.signal(signal.SIGALRM, old)
+        signal.signal(signal.SIGPROF, old_p)
+        signal.signal(signal.SIGALRM, old_a)
 
 
 def frac(x):
